@@ -16,6 +16,65 @@ Open Scope string_scope.
 Open Scope list_scope.
 Open Scope N_scope.
 
+(* ---- subsequences, insertion of lines ------------------------------------------------- *)
+Inductive subseq {A} : list A -> list A -> Prop :=
+| sub_nil : subseq [] []
+| sub_skip x l l' : subseq l l' -> subseq l (x :: l')
+| sub_keep x l l' : subseq l l' -> subseq (x :: l) (x :: l').
+
+Lemma subseq_refl {A} (l : list A) : subseq l l.
+Proof. induction l; constructor; assumption. Qed.
+Lemma subseq_app_l {A} (p l l' : list A) : subseq l l' -> subseq (p ++ l) (p ++ l').
+Proof. intros H. induction p; cbn [app]; [exact H|constructor; assumption]. Qed.
+Lemma subseq_length {A} (l l' : list A) : subseq l l' -> (List.length l <= List.length l')%nat.
+Proof. induction 1; cbn [List.length]; lia. Qed.
+Lemma subseq_In {A} (l l' : list A) x : subseq l l' -> In x l -> In x l'.
+Proof. induction 1; cbn [In]; intuition. Qed.
+Lemma subseq_map {A B} (f : A -> B) l l' : subseq l l' -> subseq (map f l) (map f l').
+Proof. induction 1; cbn [map]; constructor; assumption. Qed.
+
+(* lines' is lines with further lines inserted, each satisfying P *)
+Inductive ins_lines (P : list N -> Prop) : list (list N) -> list (list N) -> Prop :=
+| ji_nil : ins_lines P [] []
+| ji_junk j l l' : P j -> ins_lines P l l' -> ins_lines P l (j :: l')
+| ji_keep x l l' : ins_lines P l l' -> ins_lines P (x :: l) (x :: l').
+
+Lemma ins_lines_refl (P : list N -> Prop) l : ins_lines P l l.
+Proof. induction l; constructor; assumption. Qed.
+
+Lemma ins_lines_one (P : list N -> Prop) a j b : P j -> ins_lines P (a ++ b) (a ++ j :: b).
+Proof.
+  intros H. induction a as [|x a IH]; cbn [app].
+  - apply ji_junk; [exact H|apply ins_lines_refl].
+  - apply ji_keep. exact IH.
+Qed.
+
+Lemma ins_lines_mono (P Q : list N -> Prop) l l' :
+  (forall x, P x -> Q x) -> ins_lines P l l' -> ins_lines Q l l'.
+Proof.
+  intros H. induction 1 as [|j l l' Hj _ IH|x l l' _ IH].
+  - apply ji_nil.
+  - apply ji_junk; auto.
+  - apply ji_keep; auto.
+Qed.
+
+Lemma ins_lines_trans (P : list N -> Prop) l1 l2 : ins_lines P l1 l2 -> forall l3, ins_lines P l2 l3 -> ins_lines P l1 l3.
+Proof.
+  intros H12 l3 H23. revert l1 H12. induction H23 as [|j l l' Hj H IH|x l l' H IH]; intros l1 H12.
+  - exact H12.
+  - apply ji_junk; [exact Hj|]. apply IH. exact H12.
+  - inversion H12; subst.
+    + apply ji_junk; [assumption|]. apply IH. assumption.
+    + apply ji_keep. apply IH. assumption.
+Qed.
+
+Lemma ins_lines_app (P : list N -> Prop) a a' b b' : ins_lines P a a' -> ins_lines P b b' -> ins_lines P (a ++ b) (a' ++ b').
+Proof. intros Ha Hb. induction Ha; cbn [app]; [exact Hb| |]; constructor; assumption. Qed.
+
+(* a line that is not a title *)
+Definition nontitle (j : list N) : Prop := startswith [ch_tilde] (strip j) = false.
+Notation junk_ins := (ins_lines nontitle).
+
 (* ---- classification of one physical line --------------------------------------------- *)
 Inductive lclass := LSkip | LStop | LItem (it : hitem) | LBad (line : list N).
 
@@ -347,36 +406,6 @@ Proof.
 Qed.
 
 (* ---- any number of junk lines at any sites: genuine items stay a subsequence ----------- *)
-Inductive subseq {A} : list A -> list A -> Prop :=
-| sub_nil : subseq [] []
-| sub_skip x l l' : subseq l l' -> subseq l (x :: l')
-| sub_keep x l l' : subseq l l' -> subseq (x :: l) (x :: l').
-
-Lemma subseq_refl {A} (l : list A) : subseq l l.
-Proof. induction l; constructor; assumption. Qed.
-Lemma subseq_app_l {A} (p l l' : list A) : subseq l l' -> subseq (p ++ l) (p ++ l').
-Proof. intros H. induction p; cbn [app]; [exact H|constructor; assumption]. Qed.
-Lemma subseq_length {A} (l l' : list A) : subseq l l' -> (List.length l <= List.length l')%nat.
-Proof. induction 1; cbn [List.length]; lia. Qed.
-Lemma subseq_In {A} (l l' : list A) x : subseq l l' -> In x l -> In x l'.
-Proof. induction 1; cbn [In]; intuition. Qed.
-
-(* lines' is lines with lines inserted none of which is a title *)
-Inductive junk_ins : list (list N) -> list (list N) -> Prop :=
-| ji_nil : junk_ins [] []
-| ji_junk j l l' : startswith [ch_tilde] (strip j) = false -> junk_ins l l' -> junk_ins l (j :: l')
-| ji_keep x l l' : junk_ins l l' -> junk_ins (x :: l) (x :: l').
-
-Lemma junk_ins_refl l : junk_ins l l.
-Proof. induction l; constructor; assumption. Qed.
-
-Lemma junk_ins_one a j b : startswith [ch_tilde] (strip j) = false -> junk_ins (a ++ b) (a ++ j :: b).
-Proof.
-  intros H. induction a as [|x a IH]; cbn [app].
-  - apply ji_junk; [exact H|apply junk_ins_refl].
-  - apply ji_keep. exact IH.
-Qed.
-
 Lemma scan_junk_ins ig lines lines' : junk_ins lines lines' ->
   snd (scan ig lines') = None -> snd (scan ig lines) = None ->
   subseq (fst (scan ig lines)) (fst (scan ig lines')).
@@ -455,7 +484,7 @@ Proof.
       destruct (Hsl eq_refl) as (Eb & Hlen). rewrite Eb. injection H' as <-.
       eexists. split; [reflexivity|]. rewrite !append_all_length, !app_length. lia. }
   destruct Hr as (r & Hr & Hlen). exists r. split; [exact Hr|].
-  pose proof (junk_genuine_subsequence ig _ _ acc r r' (junk_ins_one a j b Hj) Hr H') as S.
+  pose proof (junk_genuine_subsequence ig _ _ acc r r' (ins_lines_one nontitle a j b Hj) Hr H') as S.
   split; [|exact S]. apply subseq_length in S. rewrite !map_length in S. lia.
 Qed.
 
